@@ -149,8 +149,11 @@ def evaluate(ctx, rng, tier, focus, budget, broken):
             got = parse_hs(a_ring)
             exp_ring = {c for c, d in bfs.items() if d == k}
             if set(got) != exp_ring or len(got) != len(exp_ring):
+                # known finding F7: the walk closes (holonomy cancels) around pentagons it never touches
+                enclosed = any(gen.is_pentagon(c_) and d_ < k for c_, d_ in bfs.items())
                 viol_.append(viol("gridRingUnsafe succeeded with something else than the ring at distance k",
-                                  ops[5 * i + 3], f"{len(exp_ring)} cells", a_ring[:200]))
+                                  ops[5 * i + 3], f"{len(exp_ring)} cells", a_ring[:200],
+                                  key="ringUnsafe-encloses-pentagons" if enclosed else None))
         if len(viol_) >= 20:
             break
     return {"evaluations": len(ops) + len(nb.cache), "violations": viol_[:20], "distinct": ops,
